@@ -73,6 +73,7 @@ def valOfJson (j : Json) : PyVal :=
     match a.toList with
     | [Json.str "str", s] => .str (charsOfJson s)
     | [Json.str "tuple", Json.arr xs] => .tuple (xs.toList.map charsOfJson)
+    | [Json.str "list", Json.arr xs] => .list (xs.toList.map charsOfJson)
     | _ => .none
   | _ => .none
 
@@ -80,6 +81,7 @@ def valJson : PyVal → Json
   | .none => Json.null
   | .str s => Json.arr #[Json.str "str", charsJson s]
   | .tuple xs => Json.arr #[Json.str "tuple", Json.arr (xs.map charsJson).toArray]
+  | .list xs => Json.arr #[Json.str "list", Json.arr (xs.map charsJson).toArray]
 
 def isPOf (j : Json) : Char → Bool :=
   let np := getNatList j "nonprintable"
@@ -114,6 +116,8 @@ def handle (op : String) (j : Json) : Option Json :=
     | none => some (obj [("none", Json.bool true)])
   | "gen.spec.denotes" =>
     some (obj [("holds", Json.bool (Spec.Gen.denotesB (getChars j "text") (valOfJson (getObj j "val"))))])
+  | "gen.spec.denotesSeq" =>
+    some (obj [("holds", Json.bool (Spec.Gen.denotesSeqB (getChars j "text") ((getArr j "seq").map charsOfJson)))])
   | "gen.path" =>
     let extra := getNatList j "extraWord"
     let lowerTab := (getArr j "lower").filterMap (fun e => match e with
